@@ -220,6 +220,20 @@ var edits = []edit{
 			g.People[0].Extra = append(g.People[0].Extra, "1 OCCU Farrier", "2 DATE 1830")
 		}
 	}},
+	// a family event that carries the spouses' ages (role nodes nested below the family level)
+	{"family-event-with-spouse-ages", func(g *gen.Graph) {
+		if len(g.Families) > 0 {
+			g.Families[0].Extra = append(g.Families[0].Extra, "1 MARR", "2 DATE 4 Apr 1825", "2 HUSB", "3 AGE 24y", "2 WIFE", "3 AGE 22y")
+		}
+	}},
+	{"family-note-and-second-name", func(g *gen.Graph) {
+		if len(g.Families) > 0 {
+			g.Families[len(g.Families)-1].Extra = append(g.Families[len(g.Families)-1].Extra, "1 NOTE married in haste", "1 EVEN census", "2 DATE 1841")
+		}
+		if len(g.People) > 0 {
+			g.People[len(g.People)-1].Extra = append(g.People[len(g.People)-1].Extra, "1 NAME Also /Known/", "2 TYPE aka")
+		}
+	}},
 }
 
 type kase struct {
@@ -325,6 +339,30 @@ func judge1(k kase, extra *[][2]string) (sig, what string) {
 	}
 	if err != nil || out == nil {
 		return "merge-returns-error", fmt.Sprint(err)
+	}
+	if k.Entry == "query" {
+		// the query function is the library call: after an in-place edit of one input it must
+		// again give what the library call gives on the same two documents
+		p, msg, frame := vlib.Try(func() {
+			R.AddIndividual("LATE1", gedcom.NewNameNode("Late /Addition/"), gedcom.NewNode(gedcom.TagNote, "MKRLATE1", ""))
+			eng, _ := q.NewParser().ParseString("MergeDocumentsAndIndividuals(Document1, Document2)")
+			v, e2 := eng.Evaluate([]*gedcom.Document{L, R})
+			lib, e3 := gedcom.MergeDocumentsAndIndividuals(L, R, gedcom.EqualityMergeFunction, gedcom.NewIndividualNodesCompareOptions())
+			if e2 != nil || e3 != nil {
+				err = fmt.Errorf("second merge: query error %v, library error %v", e2, e3)
+				return
+			}
+			if a, b := sortedRecords(v.(*gedcom.Document)), sortedRecords(lib); a != b {
+				err = fmt.Errorf("after adding an individual to the right document the query function gives\n%s\nthe library call gives\n%s", a, b)
+			}
+			R.DeleteNode(R.NodeByPointer("LATE1"))
+		})
+		if p {
+			return "panic:second-merge:" + frame + ":" + vlib.MsgClass(msg), msg
+		}
+		if err != nil {
+			return "query-function-differs-from-library-call-on-second-use", err.Error()
+		}
 	}
 	show := fmt.Sprintf("edits=%v options=%s entry=%s\nleft:\n%sright:\n%smerged:\n%s", applied, k.Options, k.Entry, lt, rt, out.String())
 
@@ -482,6 +520,16 @@ func judge1(k kase, extra *[][2]string) (sig, what string) {
 	return "", ""
 }
 
+// sortedRecords: the document's root records as text, sorted (record order is not part of the comparison).
+func sortedRecords(d *gedcom.Document) string {
+	var recs []string
+	for _, n := range d.Nodes() {
+		recs = append(recs, gedcom.GEDCOMString(n, 0))
+	}
+	sort.Strings(recs)
+	return strings.Join(recs, "")
+}
+
 // judge returns every distinct finding of a case (reference findings do not
 // stop the walk, so a known finding cannot mask another one in the same case).
 func judge(k kase) [][2]string {
@@ -602,7 +650,7 @@ func main() {
 	vlib.Main(&vlib.Check{
 		ID:    "C10",
 		Level: "exploration",
-		Rule: "cases: 5 referentially closed base family graphs (single, couple, couple+child, two families sharing a spouse, child who is also a spouse) x every sequence of <=k edits of the right-hand copy from 13 edits (renumber all/one person/one family, drop first/last person, add a child, rename slightly/completely, birth +1y/+40y, add a fact), plus empty / disjoint / clashing-pointer documents on either side, x {default, strict 0.95, lenient 0.3} x {library call, query function}. " +
+		Rule: "cases: 5 referentially closed base family graphs (single, couple, couple+child, two families sharing a spouse, child who is also a spouse) x every sequence of <=k edits of the right-hand copy from 15 edits (renumber all/one person/one family, drop first/last person, add a child, rename slightly/completely, birth +1y/+40y, add facts, a family event with spouse ages, family note/event and a second name), plus empty / disjoint / clashing-pointer documents on either side, x {default, strict 0.95, lenient 0.3} x {library call, query function}. " +
 			"Non-trivial = both documents non-empty; distinct by (left text, right text, options, entry).",
 		Assumptions: []string{
 			"every individual carries a unique marker NOTE so that the matching chosen by the implementation does not need to be known",
